@@ -95,11 +95,12 @@ pub struct HostS<'s> {
     pub energy: u64,
     energy_left: u64,
     pub hcalls: Vec<String>,
+    pub ticks: Vec<u64>,
     pub fail_enabled: bool,
 }
 impl<'s> HostS<'s> {
     fn new(sched: &'s Sched, budget: u64) -> Self {
-        HostS { sched, ncalls: 0, nint: 0, trace: 0xcbf29ce484222325, trace_len: 0, energy: 0, energy_left: budget, hcalls: vec![], fail_enabled: true }
+        HostS { sched, ncalls: 0, nint: 0, trace: 0xcbf29ce484222325, trace_len: 0, energy: 0, energy_left: budget, hcalls: vec![], ticks: vec![], fail_enabled: true }
     }
     fn ev(&mut self, tag: u64, x: u64) {
         fnv(&mut self.trace, tag);
@@ -202,6 +203,7 @@ impl<'s> Host<ArtifactNamedImport> for HostS<'s> {
     }
     fn tick_energy(&mut self, e: u64) -> RunResult<()> {
         self.ev(8, e);
+        if self.ticks.len() < 64 { self.ticks.push(e); }
         self.charge(e)
     }
     fn track_call(&mut self) -> RunResult<()> {
@@ -226,6 +228,7 @@ pub struct Outcome {
     pub trace_len: u64,
     pub ncalls: u64,
     pub hcalls: String,
+    pub ticks: String,
     pub nint: u64,
 }
 impl Outcome {
@@ -235,7 +238,7 @@ impl Outcome {
     }
     fn json(&self) -> J {
         json!({"head": self.head, "pages": self.pages, "memrem": self.memrem, "nz": self.nz, "nzcount": self.nzcount,
-               "energy": self.energy.to_string(), "ncalls": self.ncalls, "hcalls": self.hcalls, "nint": self.nint, "tlen": self.trace_len})
+               "energy": self.energy.to_string(), "ncalls": self.ncalls, "hcalls": self.hcalls, "ticks": self.ticks, "nint": self.nint, "tlen": self.trace_len})
     }
 }
 
@@ -294,7 +297,7 @@ pub fn drive<C: RunnableCode>(art: &Artifact<ArtifactNamedImport, C>, name: &str
         None => (0, 0, (0, 0, String::new())),
     };
     Outcome { head, pages, memrem, memhash, nzcount, nz, energy: host.energy, trace: host.trace, trace_len: host.trace_len, ncalls: host.ncalls,
-              hcalls: host.hcalls.join(";"), nint: host.nint }
+              hcalls: host.hcalls.join("+"), ticks: host.ticks.iter().map(|t| t.to_string()).collect::<Vec<_>>().join(","), nint: host.nint }
 }
 
 // ------------------------------------------------------------------ instantiate / reload
